@@ -220,31 +220,70 @@ func inShowsDecimals4(fr *frame, args []value) value {
 	parts := partsOf(args[0])
 	res := tFalse
 	n := len(vals)
-	for i := 0; i+2*n-1 <= len(parts); i++ {
+	for i := 0; i < len(parts); i++ {
 		c := tTrue
+		pos := i
 		for k := 0; k < n && !c.IsFalse(); k++ {
-			p := parts[i+2*k]
-			if !strings.HasPrefix(p.kind, "fmt:%.4f/") {
-				c = tFalse
-				break
-			}
 			if k > 0 {
-				sp := parts[i+2*k-1]
-				if sp.kind != "" || sp.lit != sep {
+				if pos >= len(parts) || parts[pos].kind != "" || parts[pos].lit != sep {
 					c = tFalse
 					break
 				}
+				pos++
 			}
-			it, ok := scaled4Operand(st, p.args[0])
-			if !ok {
+			mc, width := decimal4At(st, parts, pos, vals[k].(*Term))
+			if width == 0 {
 				c = tFalse
 				break
 			}
-			c = st.And(c, st.Eq(it, vals[k].(*Term)))
+			c = st.And(c, mc)
+			pos += width
 		}
 		res = st.Or(res, c)
 	}
 	return res
+}
+
+// decimal4At recognises, at parts[i], a rendering of an integer count of
+// ten-thousandths with four decimals and returns the condition under which
+// it shows exactly v/10000: either one %.4f part whose operand is
+// float64(t)*0.0001 (condition t == v), or the integer rendering
+// "%d" "." "%04d" of (a, b) (condition: a and b are the truncated quotient
+// and the magnitude of the remainder, and the sign survives, i.e. a < 0 when
+// v < 0 -- "%d" cannot print "-0").  width 0: not such a rendering.
+func decimal4At(st *Store, parts []strPart, i int, v *Term) (*Term, int) {
+	if i >= len(parts) {
+		return nil, 0
+	}
+	p := parts[i]
+	if strings.HasPrefix(p.kind, "fmt:%.4f/") {
+		it, ok := scaled4Operand(st, p.args[0])
+		if !ok {
+			return nil, 0
+		}
+		return st.Eq(it, v), 1
+	}
+	if strings.HasPrefix(p.kind, "fmt:%d/") && i+2 < len(parts) && parts[i+1].kind == "" && parts[i+1].lit == "." &&
+		strings.HasPrefix(parts[i+2].kind, "fmt:%04d/") {
+		ext := func(q strPart) *Term {
+			t := q.args[0]
+			if t.w >= 64 {
+				return t
+			}
+			if strings.HasPrefix(q.kind[strings.LastIndexByte(q.kind, '/')+1:], "int") {
+				return st.SExt(t, 64)
+			}
+			return st.ZExt(t, 64)
+		}
+		a, b := ext(p), ext(parts[i+2])
+		k := BV(10000, 64)
+		quo, rem := st.bin(OpSDiv, v, k), st.bin(OpSRem, v, k)
+		zero := BV(0, 64)
+		nonneg := st.And(st.SLe(zero, v), st.And(st.Eq(a, quo), st.Eq(b, rem)))
+		neg := st.And(st.SLt(v, zero), st.And(st.SLt(a, zero), st.And(st.Eq(a, quo), st.Eq(b, st.Neg(rem)))))
+		return st.Or(nonneg, neg), 3
+	}
+	return nil, 0
 }
 
 // scaled4Operand recognises float64(t)*0.0001 and float64(t)/10000 and
